@@ -14,6 +14,7 @@ import json
 import os
 import re
 
+import c04_crash as C
 import c04_lib as L
 import c04_run as R
 import c04_tamper as T
@@ -248,7 +249,7 @@ def run(chk):
     tool.close()
 
     # ---- phase B: histories
-    n_hist = 56 if quick else 700
+    n_hist = 96 if quick else 480
     jobs, names = [], []
     for fn, c in corpus:
         if "history" in c:
@@ -260,11 +261,26 @@ def run(chk):
         versions = rng.choice([1, 1, 2, 3])
         universe = UNIVERSE[:rng.choice([6, 10, 16])]
         ops = gen_history(rng.fork(), rng.choice([60, 120, 240]), universe)
-        exhaustive = (not quick) and i % 50 == 0
+        exhaustive = (not quick) and i % 40 == 0
         tseed = rng.u64()
-        jobs.append((c04_exe, mx, optname, versions, ops, "h%d" % i, 10 if quick else 30, tseed, exhaustive, num_levels))
-        names.append(("h%d" % i, optname, versions, ops, 10 if quick else 30, tseed, exhaustive))
+        jobs.append((c04_exe, mx, optname, versions, ops, "h%d" % i, 12 if quick else 24, tseed, exhaustive, num_levels))
+        names.append(("h%d" % i, optname, versions, ops, 12 if quick else 24, tseed, exhaustive))
     results = run_many(jobs)
+
+    # ---- phase C: crash points (oracle only)
+    n_crash = 100 if quick else 1200
+    cjobs = []
+    for i in range(n_crash):
+        opts = BASE_OPTS + OPTION_SETS[i % len(OPTION_SETS)][1] + ["--gc-policy", "versions=%d" % rng.choice([1, 2])]
+        cjobs.append((c04_exe, opts, rng.u64(), "x%d" % i))
+    cstats = collections.Counter()
+    crash_bad = []
+    for (pr, st), job in zip(C.run_many(cjobs, vlib.NCPU), cjobs):
+        cstats.update(st)
+        for p in pr:
+            if p["kind"] == "machinery":
+                raise RuntimeError("check machinery failed: %s" % json.dumps(p)[:500])
+            crash_bad.append({"name": "crash", "options": job[1], "problem": p})
 
     steps, tstats = collections.Counter(), collections.Counter()
     prop_bad, corr_bad, mach_bad, outside = [], [], [], 0
@@ -292,14 +308,14 @@ def run(chk):
             shapes.add(json.dumps(ops_to_json(ops))[:3000])
 
     chk.coverage.update({
-        "evaluations": len(results) + n_log + tstats.get("cases", 0),
-        "distinct_nontrivial": len(shapes) + tstats.get("cases", 0),
-        "rule": "histories: random single-stepped sessions of the real KeyValueStore (puts/deletes/batches over an adversarial key universe, flush, bursts of real selector compactions, reopen, verifier passes on the live directory) under 4 option sets (tiny files, eager manifest rollover, few files per compaction) x GC policy versions=1..3, every manifest transaction compared with the model and with the Python oracle; non-trivial = >=2 flushes and >=1 merging compaction or GC; tamper cases: one digit of one digest / one entry of one output (rebuilt by the real builder) / in-place edits / malformed strings on a copy of the real directory, counted individually; log cases: WriteBatches with refused puts",
+        "evaluations": len(results) + n_log + tstats.get("cases", 0) + n_crash,
+        "distinct_nontrivial": len(shapes) + tstats.get("cases", 0) + cstats.get("killed", 0),
+        "rule": "histories: random single-stepped sessions of the real KeyValueStore (puts/deletes/batches over an adversarial key universe, flush, bursts of real selector compactions, reopen, verifier passes on the live directory) under 4 option sets (tiny files, eager manifest rollover, few files per compaction) x GC policy versions=1..3, every manifest transaction compared with the model and with the Python oracle; non-trivial = >=2 flushes and >=1 merging compaction or GC; tamper cases: one digit of one digest / one entry of one output (rebuilt by the real builder) / in-place edits / malformed strings on a copy of the real directory, counted individually; log cases: WriteBatches with refused puts; crash cases: a real session killed by SIGKILL on entering the N-th write/fdatasync/fsync/rename/linkat/unlink (strace injection), the directory inspected before and after the next open (oracle only), counted when the kill happened",
         "samples": [ops_to_json(names[-1][3])[:10]],
-        "input_distribution": {"store_steps": dict(steps), "tamper_cases": dict(tstats), "log_cases": n_log, "log_puts_refused": refused_seen,
+        "input_distribution": {"store_steps": dict(steps), "tamper_cases": dict(tstats), "crash_cases": dict(cstats), "log_cases": n_log, "log_puts_refused": refused_seen,
                                "option_sets": [o[0] for o in OPTION_SETS], "histories_outside_model": outside, "outside_reasons": dict(outside_reasons)},
         "traces_validated_against_impl": len(results),
-        "disagreements_impl_vs_model": len(corr_bad), "disagreements_impl_vs_spec": len(prop_bad) + len(log_bad),
+        "disagreements_impl_vs_model": len(corr_bad), "disagreements_impl_vs_spec": len(prop_bad) + len(log_bad) + len(crash_bad),
         "corpus_cases": len(corpus),
         "trusted_base": [
             "Coq 8.16.1 kernel (coqc, full .vo build); vm_compute only in the non-vacuity examples",
@@ -312,11 +328,13 @@ def run(chk):
     })
     chk.assumptions = ["H (SHA3-256) is an arbitrary function returning 32 bytes; the entry-tamper theorems assume it separates the entries involved (explicit hypothesis hash_separates)",
                        "no setsum collision between different files of one history (checked per step)",
-                       "single-stepped, fault-free execution; crash points are C02's subject",
+                       "single-stepped execution; crash points are covered by the oracle on real runs only (the model has no crash step; C02 owns crash-safety)",
                        "the collector is an arbitrary function of the merged input (C05 says which)"]
     if mach_bad:
         raise RuntimeError("check machinery failed: %s" % json.dumps(mach_bad[0]["problem"])[:500])
-    if prop_bad or log_bad:
+    if prop_bad or log_bad or crash_bad:
+        for i, b in enumerate(crash_bad[:2]):
+            chk.violation("c04_crash_%d.json" % i, dict(b, kind="property", replay_cmd="./bin/check C04 --replay <this file>"))
         for i, b in enumerate(prop_bad[:3]):
             chk.violation("c04_%s_%d.json" % (b["name"], i), dict(b, kind="property",
                           replay_cmd="./bin/check C04 --replay <this file>"))
@@ -336,6 +354,10 @@ def replay(path):
     L.PRIMES = consts["Setsum"]["SETSUM_PRIMES"]
     okm, outm, mx = vlib.ocaml_build("books", "mx_books")
     okh, outh, (c04_exe,) = vlib.cargo_build(["c04"])
+    if obj.get("name") == "crash":
+        pr, st = C.crash_case(c04_exe, obj["options"], obj["problem"]["replay"]["seed"], "replay")
+        print("now:", json.dumps(pr, indent=1)[:3000], st)
+        return 1 if pr else 0
     if "history" not in obj:
         if "spec" in obj:
             tool = L.Tool(c04_exe)
